@@ -22,17 +22,26 @@ impl NameMatcher {
 
 impl Matcher for NameMatcher {
     fn matches(&self, file_info: &WalkEntry, _: &mut MatcherIO) -> bool {
-        let name = file_info.file_name().to_string_lossy();
-
         #[cfg(unix)]
-        if name.len() > 1 && name.chars().all(|x| x == '/') {
-            self.pattern.matches("/")
-        } else {
-            self.pattern.matches(&name)
+        {
+            // The last component of the path as spelled: trailing slashes are
+            // ignored, "." and ".." count (a starting point can be "./" or
+            // "dir/.."), and a path made of slashes only is "/".
+            let path = file_info.path().to_string_lossy();
+            let trimmed = path.trim_end_matches('/');
+            let name = if trimmed.is_empty() && !path.is_empty() {
+                "/"
+            } else {
+                trimmed.rsplit('/').next().unwrap_or(trimmed)
+            };
+            self.pattern.matches(name)
         }
 
         #[cfg(windows)]
-        self.pattern.matches(&name)
+        {
+            let name = file_info.file_name().to_string_lossy();
+            self.pattern.matches(&name)
+        }
     }
 }
 
